@@ -255,6 +255,10 @@ const TB_SAMPLES: &[TbSample] = &[
                quadratic_ok: &[], const_conds: &[] },
     TbSample { name: "same-constant-on-both-paths", src: "template T(n) {\n signal input in; signal output out;\n var c = 1;\n if (n == 0) { c = 1; }\n var r = 0;\n if (c == 1) { r = 1; }\n out <== in * r;\n}\n",
                quadratic_ok: &[], const_conds: &[("c == 1", true)] },
+    TbSample { name: "array-slot-overwritten", src: "template T() {\n signal input a; signal input b; signal input c; signal output out;\n var x[2] = [a * b, a * b];\n x[0] = 0;\n out <-- x[1] * c;\n out * 1 === a * b * c;\n}\n",
+               quadratic_ok: &[], const_conds: &[] },
+    TbSample { name: "array-slot-raised-later", src: "template T() {\n signal input a; signal input b; signal output out;\n var x[2] = [a, a];\n x[1] = a * b;\n x[0] = 1;\n out <-- x[1] * b;\n}\n",
+               quadratic_ok: &[], const_conds: &[] },
     TbSample { name: "constant-overwritten-in-loop", src: "template T(n) {\n signal input in; signal output out;\n var c = 5;\n for (var i = 0; i < n; i++) { c = c * 2; }\n var r = 0;\n if (c == 5) { r = 1; }\n out <== in * r;\n}\n",
                quadratic_ok: &[], const_conds: &[] },
 ];
@@ -333,7 +337,7 @@ fn timebox_bounded(tier: &str) {
     println!("{{\"unit\":\"timebox\",\"evaluations\":{},\"distinct_nontrivial\":{},\"exhaustive\":false,\"rule\":{},\"bound\":{},\"samples\":[{}],\"violations\":[{}]}}",
         evals, nontrivial,
         jstr("the real parse_definition + into_cfg + into_ssa with value and degree propagation stopped after b passes (pass budget hook = the time box expiring there), for every b up to the bound and for the fixpoint: the run completes, and every `at most quadratic` annotation on a `<--` right-hand side and every `always true/false` annotation on a branch condition is within the sample's hand-written ground truth"),
-        jstr(&format!("{} hand-labelled templates (loop accumulators whose degree grows, uses before updates, nested loops, branches, counters) x pass budgets 1..{} and unlimited; {} claims observed", TB_SAMPLES.len(), max_budget, claims_seen)),
+        jstr(&format!("{} hand-labelled templates (loop accumulators whose degree grows, uses before updates, nested loops, branches, counters, array slots overwritten) x pass budgets 1..{} and unlimited; {} claims observed", TB_SAMPLES.len(), max_budget, claims_seen)),
         samples.join(","), viol.join(","));
 }
 
